@@ -6,7 +6,9 @@ import PromModel.Suites.DbSuite
         app <s> <t> <vbits-hex> <ref> <zero|own|other|stale>   -> ok <ref> | oob | ooo | dup | noapp
   `<ref>` is the literal reference passed to `Append`; the last token says where the client got it from
   (ignored by the model, read by the judge — see `Prom.Refs.Client`).
-  Model = `RefDb.step`; judge = `Prom.Refs.holdsFrom` on the implementation's outputs.
+  Model = `RefDb.step`; judge = `Prom.Refs.holdsFrom` on the implementation's outputs; a detected
+  violation is then NAMED by the mechanism the history shows (`classifyStale` / `classifyForeign`).
+  `win` prints `~` for `Head.MinTime()` from the first restart of a case on (see `renderWinAfterRestart`).
 -/
 namespace Prom.Refs
 open Prom.Db Prom.Intervals
@@ -30,22 +32,165 @@ def parseROut (op : ROp) (s : String) : ROut :=
   | .app _ i t v _, _ => .base (parseOut (.app i t v) s)
   | .base o, _ => .base (parseOut o s)
 
+/-- `win` after a restart: `Head.MinTime()` then depends on the head chunk files, which the
+    reference-layer model does not contain — on which samples sit in m-mapped chunks (the WAL replay
+    skips samples at or below a series' `mmMaxTime`; suite `db` compares it with an oracle read from the
+    real head), and on whether `chunks_head` survives the start: a label set with two series records
+    (`multiRef`) gets a chunk m-mapped twice by a replaying start, the next start then fails
+    `loadMmappedChunks` ("out of sequence m-mapped chunk"), `removeCorruptedMmappedChunks` resets the
+    in-memory state (forgetting the `Truncate(blocks' maxt)` done before `Init`) and the head is rebuilt
+    from the WAL alone, with `MinTime()` = lowest replayed sample. No sample is lost or misattributed and
+    `MinTime()` is not part of C22's statement. From the first `reopen` of a case on, harness and model
+    both print `~` for the first component; `MaxTime()` and the appendable minimum are still compared. -/
+def renderWinAfterRestart (s : String) : String :=
+  match toks s with
+  | _ :: rest => " ".intercalate ("~" :: rest)
+  | [] => s
+
 def model (lines : List String) : List String :=
-  let rec go (d : RefDb) : List String → List String
+  let rec go (d : RefDb) (restarted : Bool) : List String → List String
     | [] => []
     | l :: rest =>
       match parseCfg? l with
-      | some c => "ok" :: go (RefDb.init c) rest
+      | some c => "ok" :: go (RefDb.init c) false rest
       | none =>
         match parseROp? l with
-        | some op => let (d', o) := d.step op; renderROut o :: go d' rest
-        | none => "bad-op" :: go d rest
-  go (RefDb.init ⟨1, 0⟩) lines
+        | some op =>
+          let (d', o) := d.step op
+          let txt := renderROut o
+          match op with
+          | .base .reopen => txt :: go d' true rest
+          | .base .win => (if restarted then renderWinAfterRestart txt else txt) :: go d' restarted rest
+          | _ => txt :: go d' restarted rest
+        | none => "bad-op" :: go d restarted rest
+  go (RefDb.init ⟨1, 0⟩) false lines
 
-def renderVerdict : Verdict → String
+/-! ### Classification of a violation by mechanism
+
+  Detection is `Prom.Refs.holdsFrom` (C22's statement on the observed outputs), unchanged. What follows
+  only decides which NAME a detected violation gets, from what the history before it shows — never from
+  the position in the history, and not from the `zero|own|other|stale` token alone (a minimiser that
+  drops op lines leaves the tokens behind).
+
+  `Trail` is the judge's memory across process lifetimes: for every lifetime the owner table of
+  `Client` (first acknowledged label set per reference), and every committed acknowledged sample with
+  the lifetime, the reference it was acknowledged under and the label set it went to. -/
+
+structure Ack where
+  life : Nat
+  ref : Nat
+  lbl : Nat
+deriving Repr, Inhabited
+
+structure SentR where
+  life : Nat
+  ref : Nat
+  lbl : Nat
+  smp : Smp
+deriving Repr, Inhabited
+
+structure Trail where
+  life : Nat := 0                 -- number of restarts so far
+  acks : List Ack := []           -- chronological; one entry per (lifetime, reference)
+  pendR : List SentR := []        -- open transaction
+  sentR : List SentR := []        -- committed
+deriving Repr, Inhabited
+
+/-- Mirrors `Client.step` (`c` = the client state BEFORE the step). -/
+def Trail.step (tr : Trail) (c : Client) (op : ROp) (o : ROut) : Trail :=
+  match op, o with
+  | .app _ i t v _, .okRef ref =>
+    match lookup c.owner ref with
+    | some j => { tr with pendR := tr.pendR ++ [⟨tr.life, ref, j, ⟨t, v⟩⟩] }
+    | none => { tr with acks := tr.acks ++ [⟨tr.life, ref, i⟩], pendR := tr.pendR ++ [⟨tr.life, ref, i, ⟨t, v⟩⟩] }
+  | .base .begin, _ => { tr with pendR := [] }
+  | .base .commit, .base .ok => { tr with sentR := tr.sentR ++ tr.pendR, pendR := [] }
+  | .base .commit, _ => { tr with pendR := [] }
+  | .base .rollback, _ => { tr with pendR := [] }
+  | .base .reopen, _ => { tr with life := tr.life + 1, pendR := [] }
+  | _, _ => tr
+
+def trailOf (h : List (ROp × ROut)) : Client × Trail :=
+  h.foldl (fun (acc : Client × Trail) p => ((acc.1.step 0 p.1 p.2).1, acc.2.step acc.1 p.1 p.2)) ({}, {})
+
+/-- The first lifetime in which reference `r` was acknowledged for label set `x`. -/
+def Trail.firstLife (tr : Trail) (r x : Nat) : Option Nat :=
+  (tr.acks.find? fun a => a.ref = r ∧ a.lbl = x).map (·.life)
+
+/-- `kind=stale-ref` (finding C22-F2) is assigned only when the history shows its mechanism:
+      * the sample went where the PASSED reference points (returned = passed);
+      * the client was given that reference for the labels it passes now in an EARLIER lifetime;
+      * the same reference was acknowledged for the label set it denotes now, for the first time ever,
+        in another lifetime: a new series received a reference that had been handed out before a restart,
+        i.e. `lastSeriesID` came back from a restart below it (the series record of the highest reference
+        was no longer in checkpoint ∪ segments).
+    A reference claim (`own`/`stale`/`zero` token) that the history does not bear out is an ill-formed
+    history (`bad-annotation`, another verdict class: nothing is minimised into it). Everything else is
+    `kind=wrong-series` and fires. -/
+def classifyStale (c : Client) (tr : Trail) (op : ROp) (o : ROut) (k r i j : Nat) : String :=
+  match op, o with
+  | .app _ _ _ _ kind, .okRef ref =>
+    let heldBefore := tr.acks.find? fun a => a.life < tr.life ∧ a.ref = r ∧ a.lbl = i
+    let heldNow := (lookup c.owner r) = some i
+    let claimOk : Bool :=
+      if kind = 0 then r = 0 else if kind = 1 then heldNow else if kind = 3 then heldBefore.isSome || heldNow else true
+    if !claimOk then
+      s!"violation bad-annotation kind=unsupported-ref-claim step={k} ref={r} labels=s{i} claim={kind} (the history never acknowledged this reference for these labels)"
+    else
+      let other := s!"violation misattributed kind=wrong-series step={k} passed={r} returned={ref} given=s{i} went-to=s{j}"
+      if ref ≠ r then other else
+      match heldBefore, tr.firstLife r i, tr.firstLife r j with
+      | some a, some li, some lj =>
+        if li = lj then other else
+        s!"violation misattributed kind=stale-ref step={k} ref={r} given=s{i} went-to=s{j} held-since-life={a.life} reissued-in-life={max li lj} now-life={tr.life}"
+      | _, _, _ => other
+  | _, _ => s!"violation misattributed kind=wrong-series step={k} passed={r} given=s{i} went-to=s{j}"
+
+/-- `kind=foreign-row` (finding C22-F1) is assigned only when the history shows its mechanism: the
+    returned sample was acknowledged and committed for ANOTHER label set `c` before lifetime `lb`; a
+    reference `r` acknowledged for `c` in a lifetime before `lb` was received by the label set the sample
+    is returned under, for the first time ever, in `lb` (the reference of `c` was re-issued after a
+    restart); and the query runs in a lifetime after `lb` (the restart that replays / re-attaches what is
+    stored under `r`). (`r` need not be the reference the sample was acknowledged under: after a replay
+    with duplicate series records the series lives on under the older of its references.) Everything
+    else is `kind=unsent-row` and fires. -/
+def classifyForeign (tr : Trail) (k i : Nat) (x : Smp) : String :=
+  let ev := tr.sentR.flatMap fun s =>
+    if s.smp = x ∧ s.lbl ≠ i then
+      tr.acks.filterMap fun a =>
+        if a.lbl = s.lbl then
+          match tr.firstLife a.ref i with
+          | some lb => if a.life < lb ∧ s.life < lb ∧ lb < tr.life then some (s, a, lb) else none
+          | none => none
+        else none
+    else []
+  match ev.head? with
+  | some (s, a, lb) =>
+    s!"violation misattributed kind=foreign-row step={k} series=s{i} sample={x.t}:{hexOfNat x.v 16} sent-to=s{s.lbl} sent-in-life={s.life} ref={a.ref} held-in-life={a.life} reissued-in-life={lb} now-life={tr.life}"
+  | none => s!"violation misattributed kind=unsent-row step={k} series=s{i} sample={x.t}:{hexOfNat x.v 16}"
+
+/-- `modelled k`: on every `app` line up to and including step `k` the implementation acknowledged
+    exactly what the reference-layer model acknowledges (same reference / same refusal). The model
+    re-issues a reference after a restart through ONE route only — the checkpoint dropped the series
+    record of the highest reference (`RefDb.truncateWAL` / `keep` / `replayRec`), the route of C22-F2 and
+    C22-F1. A re-issue that the model does not predict (any other way for `lastSeriesID` to come back
+    lower) therefore never gets the listed kinds: it is `…-unmodelled` and fires. -/
+def renderVerdict (typed : List (ROp × ROut)) (modelled : Nat → Bool) : Verdict → String
   | .ok => "ok"
-  | .staleRef k r i j => s!"violation misattributed kind=stale-ref step={k} ref={r} given=s{i} went-to=s{j}"
-  | .foreignRow k i x => s!"violation misattributed kind=foreign-row step={k} series=s{i} sample={x.t}:{hexOfNat x.v 16}"
+  | .staleRef k r i j =>
+    let (c, tr) := trailOf (typed.take k)
+    match typed[k]? with
+    | some (op, o) =>
+      let v := classifyStale c tr op o k r i j
+      if v.startsWith "violation misattributed kind=stale-ref " && !modelled k then
+        v.replace "kind=stale-ref " "kind=stale-ref-unmodelled "
+      else v
+    | none => s!"violation misattributed kind=wrong-series step={k} passed={r} given=s{i} went-to=s{j}"
+  | .foreignRow k i x =>
+    let v := classifyForeign (trailOf (typed.take k)).2 k i x
+    if v.startsWith "violation misattributed kind=foreign-row " && !modelled k then
+      v.replace "kind=foreign-row " "kind=foreign-row-unmodelled "
+    else v
 
 def judge (ops outs : List String) : String :=
   let pairs := ops.zip outs
@@ -56,7 +201,13 @@ def judge (ops outs : List String) : String :=
       match parseROp? p.1 with
       | some op => some (op, parseROut op p.2)
       | none => none
-    renderVerdict (holdsFrom {} typed 0)
+    -- per typed step: is it an `app` line on which implementation and model differ?
+    let differs : List Bool := (ops.zip (outs.zip (model ops))).filterMap fun p =>
+      match parseROp? p.1 with
+      | some (.app ..) => some (p.2.1 != p.2.2)
+      | some _ => some false
+      | none => none
+    renderVerdict typed (fun k => !(differs.take (k + 1)).any id) (holdsFrom {} typed 0)
 
 def suite : Suite := { name := "refs", model := model, judge := judge }
 
